@@ -179,7 +179,7 @@ def iso_case(case):
     r = core.R(case)
     fx.reset_caches()
     N, P, pl = case['N'], grid(case['grid'], case['N']), Planet()
-    for T in TV + generic_T(2, 'iso'):
+    for T in TV + generic_T(2, 'iso') + [1500]:       # the last one a Python int
         got = evaluate(r, 'iso', 'ctor', lambda: Isothermal(T=T), N, P, pl, [T], 'valid')
         if got is not None:
             r.nontrivial = True
@@ -295,6 +295,8 @@ def window_case(case):
     for w in case['windows']:
         for tname, ts, pts in (('dec', [2500.0, 300.0], []), ('peak', [300.0, 2500.0, 300.0], [mid]),
                                ('equal', [1000.0, 1000.0, 1000.0], [mid]),
+                               # whole-number controls written as Python ints (T_surface = 1800)
+                               ('ints', [1800, 900, 450], [mid]), ('equal-ints', [1000, 1000, 1000], [mid]),
                                ('generic', generic_T(3, 'w'), [mid])):
             wc = 'int' if float(w) == int(w) else 'fractional'
             tag = 'window-%s/%s' % (wc, tclass(ts))
